@@ -87,13 +87,15 @@ def main(tier):
     # transport side: kick and drift reproduce polynomials of degree <= 2 (so they transport second moments exactly) for >= 3 interpolation points
     import c02
     jobs += [(c02.job_poly, (n, it, axis, r, 1)) for n in (10, 11) for it in (3, 4) for axis in (0, 1) for r in (2, 6)]
+    import mainparams
+    jobs += [(mainparams.job_map_parameters, ('C04',))]      # O-main: the damping decrement main hands to the map: 2/(x*y*steps), inversely proportional to the configured step count
     # observation side: the reported bunch length / energy spread are the second moments of the profiles over the charge actually on the grid (whatever was lost before)
     import c09
     jobs += [(c09.job_moments, (6, 3, 2, ax, (-6, 6), (-6, 6))) for ax in (0, 1)] + [(c09.job_moments, (5, 1, 0, 1, (-5, 7), (-6.5, 5.5)))]
     chk.bounds = {'operator': 'real constructor run from IR, symbolic e1 in (0,1/4], grids %s with centred and shifted energy axis, one symbolic data column, support >= 2 rows from the border and (4-point) away from the 4 rows around the stencil switch' % [c[0] for c in cfgs],
                   'convergence': 'derived from the one-step recurrences by the solver; iteration over many damping times is not executed'}
     chk.assumptions = ['floats as reals (tolerance 1e-5*sum|f|)', 'the transport part (kick/drift) reproduces second moments for >= 3 interpolation points (C02 polynomial obligation); for 2 points it adds f(1-f) <= 1/4 cell^2 per step',
-                       'e1 = 2/(fs*t_damp*steps) in main is a tier-2 obligation (not in this check)', 'coupled q-p relaxation, stability limit of the explicit scheme and float drift are outside the claim']
+                       'e1 in main: numerator 2, divisor = step count times two further factors (synchrotron frequency and damping time by reading; their identity is not decided), inversely proportional to the configured number of steps (set-up slice of main)', 'coupled q-p relaxation, stability limit of the explicit scheme and float drift are outside the claim']
     chk.stubs = ['operator new/delete', 'random_device fixed seed', 'sqrt(2*e1) uninterpreted']
     import c02 as _c02
     _r4 = replayer(bld); _r2 = _c02.replayer(bld)
